@@ -85,6 +85,10 @@ def mutations(y, pos=0):
     d = m(); v = d["sensitive_hosts"].pop(first(sh)); d["sensitive_hosts"][f"({nsub + 1}, 0)"] = v; yield "sensitive-subnet-off-by-one", d
     d = m(); v = d["sensitive_hosts"].pop(first(sh)); d["sensitive_hosts"][f"(1, {y['subnets'][0]})"] = v; yield "sensitive-host-off-by-one", d
     d = m(); v = d["sensitive_hosts"].pop(first(sh)); d["sensitive_hosts"]["(1, -1)"] = v; yield "sensitive-negative-host", d
+    # a valid address followed by something else is not an address
+    for tag, junk in (("extra-paren", ")"), ("second-address", ", (1, 0)"), ("range", "-(1, 9)"), ("third-number", ", 0"), ("word", " x")):
+        bad = first(sh) + junk if tag != "third-number" else first(sh).rstrip(")") + ", 0)"
+        d = m(); v = d["sensitive_hosts"].pop(first(sh)); d["sensitive_hosts"][bad] = v; yield f"sensitive-address-trailing-{tag}", d
     alt = first(sh).replace(", ", ",")
     if alt != first(sh):
         d = m(); d["sensitive_hosts"][alt] = d["sensitive_hosts"][first(sh)]; yield "sensitive-duplicate", d
@@ -152,6 +156,9 @@ def mutations(y, pos=0):
     d = m(); d["host_configurations"][hl]["firewall"] = {"(99, 0)": []}; yield "hostfw-bad-subnet", d
     d = m(); d["host_configurations"][h0]["firewall"] = {"(1, 99)": [sv]}; yield "hostfw-bad-host", d
     d = m(); d["host_configurations"][h0]["firewall"] = {"garbage": []}; yield "hostfw-garbage-address", d
+    for tag, junk in (("extra-paren", ")"), ("second-address", ", (1, 0)"), ("range", "-(1, 9)"), ("word", " x")):
+        d = m(); d["host_configurations"][h0]["firewall"] = {hl + junk: [sv]}; yield f"hostfw-address-trailing-{tag}", d
+        d = m(); c = d["host_configurations"].pop(hl); d["host_configurations"][hl + junk] = c; yield f"host-address-trailing-{tag}", d
     d = m(); d["host_configurations"][hl]["firewall"] = {"(0, 0)": [sv]}; yield "hostfw-internet-address", d
     d = m(); d["host_configurations"][h0]["firewall"] = {f"(1, {y['subnets'][0]})": [sv]}; yield "hostfw-host-off-by-one", d
     d = m(); d["host_configurations"][h0]["firewall"] = {f"({nsub + 1}, 0)": [sv]}; yield "hostfw-subnet-off-by-one", d
@@ -186,6 +193,8 @@ def mutations(y, pos=0):
     if fw:
         f0, fl = first(fw), last(fw)
         d = m(); del d["firewall"][f0]; yield "firewall-missing-rule", d
+        for tag, junk in (("extra-paren", ")"), ("second-pair", ", (0, 1)"), ("word", " x")):
+            d = m(); v = d["firewall"].pop(fl); d["firewall"][fl + junk] = v; yield f"firewall-pair-trailing-{tag}", d
         d = m(); del d["firewall"][fl]; yield "firewall-missing-last-rule", d
         d = m(); d["firewall"][f0] = sv; yield "firewall-rule-not-a-list", d
         d = m(); d["firewall"][fl] = None; yield "firewall-rule-none", d
